@@ -198,7 +198,8 @@ class RpcServer(PduPeer):
             return False, None
         if out is None and not self.knobs.get("ack_token_empty_trailer"):
             return True, None
-        return True, {"type": st.auth_type, "level": st.auth_level, "ctx": st.auth_ctx, "value": out or b""}
+        # (ack_auth_level: a peer - or someone on the path of the still unprotected bind exchange - puts another level into its trailers)
+        return True, {"type": st.auth_type, "level": self.knobs.get("ack_auth_level", st.auth_level), "ctx": st.auth_ctx, "value": out or b""}
 
     def _bind(self, conn, st, pdu, entry) -> None:
         if st.n_pdus != 1:
